@@ -42,6 +42,11 @@ def extract(ctx):
     lines = [l for l in p.stdout.splitlines() if l[:2] in ("0 ", "1 ", "2 ")]
     ctx.coverage["fact_sites"] = len(lines)
     ctx.coverage["fact_sites_established"] = len([l for l in lines if l.startswith("0 ")])
+    gen = open(GEN).read()
+    import re
+    rows = re.findall(r"\((\d+), (\d+), \"", gen)
+    ctx.coverage["fact_kinds_established"] = sorted(set(int(k) for k, v in rows if v == "0"))
+    ctx.coverage["fact_kinds_present"] = sorted(set(int(k) for k, v in rows))
     ctx.coverage["fact_sites_refuted"] = [l[2:] for l in lines if l.startswith("1 ")]
     ctx.coverage["fact_sites_unknown_shape"] = [l[2:] for l in lines if l.startswith("2 ")]
     if ctx.coverage["fact_sites_unknown_shape"]:
@@ -77,12 +82,17 @@ SPEC = dict(
         "isSpace / isControl / isNumber / decodeRune of the model are hand copies of the Go tables (go1.23.5, Unicode 15.0.0); they are swept against unicode.IsSpace / IsControl / IsNumber / utf8.DecodeRune for U+0000-U+2FFF on every quick run and for every code point (incl. surrogates, out of range) on every thorough run (case kind U)",
         "the EOF token's stale Pos/column (known finding eof-stale-position) is evaluated on every case; its LINE (eof_line_true) and the stale column value after a # comment (stale_column_exact) are proved about the model",
         "comment tokens are exempt from 'Pos is the first character': their Pos is the first byte of the comment TEXT (what Val holds; the opener # or /* stands directly before it - proved); they are meta data and never reach an error or a break point",
-        "errors_carry_token_pos is a syntactic source fact (go/ast: operands of the constructions and of the Sprintf calls), regenerated on every run; that the error names the OFFENDING token is checked by the planted-error cases (45 NewRuntimeError / 11 newParserError sites, 17 plants)",
+        "errors_carry_token_pos is a syntactic source fact: the judgement (operands of the constructions, of the Sprintf calls, of the value that indexes ed.breakPoints) is Go string matching in go/cmd/harness/c18extract.go and is trusted; Lean only checks 'every kind present, none refuted' over the printed list; that the error names the OFFENDING token is checked by the planted-error cases (11 parse + 13 runtime plants x 4 shapes)",
+        "the gap clause of 'Pos is the first character' (nothing but blanks and comments between the end of the previous token's text and Pos) is TESTED on every case by the driver's independent scan (expectedPositions), not proved; proved are: the rune AT Pos is not blank, the token text stands at Pos (words, numbers, comments), Pos strictly increasing, every token pushed by lexToken from a boundary state standing at its Pos; string and error tokens have no extent in the C18 theorems (C14Lex gives the extent of a literal that starts a token)",
     ],
     assumptions=["sep cases: token lines never decrease along the token sequence (proved: lines_monotone), so the same-line-as-previous relation "
                  "determines every line comparison the parser makes; that parser.go uses token lines only in such comparisons (run, ndReturn, "
                  "ndIdentifier, hasMoreStatements) is by reading",
-                 "the EOF token has no first character: the position asked for is the end of the input (the code's stale Pos/Lpos there is the known finding eof-stale-position); an EOF that follows an error token (the lexer has stopped) is compared between model and code only"],
+                 "the EOF token has no first character: the position asked for is the end of the input (the code's stale Pos/Lpos there is the known finding eof-stale-position); an EOF that follows an error token (the lexer has stopped) is compared between model and code only",
+                 "positions of errors raised inside a string interpolation \"{{...}}\" are relative to the interpolated snippet (rt_value.go parses the code as its own source 'String interpolation: <code>'): the unit of 'the source text the user sees' is the parsed unit (C14's unit); no C18 case contains {{ }}; break points never match inside a snippet",
+                 "the error token of an UNTERMINATED block comment has the comment convention (Pos = first byte after the opener /*): parser.Error points two columns right of the /* (plant 'a := /* c'); declared, proved (token_starts_at_first_character) and compared, not counted as a deviation",
+                 "planted runtime errors are those the interpreter raises as *util.RuntimeError (11 parse + 13 runtime plants); failed variable / container access and failed import (4 plants, kinds A / Y, plain and inside try) are bare errors without position: known finding access-errors-unpositioned (candidate repair fixes/C18-access-errors-positioned.patch not applied: it changes the error type programs and the C04-C06 models observe; a repaired tree is accepted); inside a called function the interpreter re-wraps such an error at the CALL token - not planted; the 45 NewRuntimeError / 11 newParserError sites are not enumerated",
+                 "kind B drives the debugger through its Go API on ONE source name: SetBreakPoint / DisableBreakPoint / RemoveBreakPoint, first and second suspension (Continue with Resume), break point on a continuation line; the textual commands (break / rmbreak / disablebreak via HandleInput), break points in imported sources and the source part of a break target containing ':' (debug_cmd.go splits at the first colon - a source-name matter, not a line matter) are not exercised"],
     decode=decode,
 )
 
@@ -90,12 +100,13 @@ META = dict(
     technique="Lean 4 theorems over an executable port of the lexer + differential correspondence with parser.LexToList, parser.Parse and the interpreter",
     level_text=("Proof (about the executable lexer model, all inputs): every emitted non-EOF token carries the true line of its Pos, and the true "
                 "column unless the last newline before it ended a # comment - then exactly the column measured from that comment's line start "
-                "(token_positions_true_partial, stale_column_exact; negative witness proved); Pos IS the token's first character "
-                "(token_starts_at_first_character, token_text_at_pos; comment tokens: first byte of the comment text, opener directly before); "
+                "(token_positions_true_partial, stale_column_exact; negative witness proved); at Pos stands a non-blank rune and the "
+                "token's text (token_starts_at_first_character, token_text_at_pos; comment tokens: first byte of the comment text, opener directly "
+                "before; that only blanks / comments lie between two tokens is tested on every case, not proved); "
                 "EOF only at the end with the line of the end of input, Pos strictly increasing, lines never decreasing (token_list_shape, "
                 "lines_monotone, eof_line_true); the lexer always terminates with EOF or an error token, no fuel runs out (lexer_always_closes); "
                 "errors, messages, stack traces, the except object and break point keys copy Lline/Lpos of one token (errors_carry_token_pos: "
-                "three-valued go/ast fact regenerated on every run, Lean obligation). Model tied to parser/lexer.go by an exhaustive-for-short / "
+                "three-valued go/ast fact regenerated on every run - the judging is trusted Go code, Lean checks 'all kinds present, none refuted'). Model tied to parser/lexer.go by an exhaustive-for-short / "
                 "random-for-long differential run and a code point sweep; error positions (fields, message text, JSON, except object, stack "
                 "trace), break points on the real debugger and statement separation under comments are tested on every run."),
     level_note=("Trusted: Lean kernel + propext/Classical.choice/Quot.sound; the correspondence harness. Known finding hash-comment-column "
